@@ -223,6 +223,34 @@ def run(ctx):
         ctx.check(n_ctx >= 1 and sides == {opposite(r)}, "K4-loop", f.short() + "|aggressor-side", ctx.loc(f),
                   "in all %d calling contexts the aggressor is a %s order matched against the %s side" % (n_ctx, opposite(r), r),
                   "%s (popping the %s side) is called with an aggressor that may be on side(s) %s" % (f.short(), r, sorted(sides)))
+    # ---------------------------------------------------------------- K4-run: the loop runs whenever trading is on
+    # An incoming / re-priced order must be offered to the opposite side on EVERY path (given trading): the only
+    # conditions a matching call may depend on are the trading flag, the order's own side / kind / status
+    # discriminants.  Any price/volume/market-data dependent shortcut ("cannot cross, skip matching") is a violation.
+    mpaths = {f.path: s for (f, s, _c) in matchers}
+    n_run = 0
+    for f in m.book_all_fns():
+        q = m.q(f)
+        for c in q.calls():
+            if c.target is None or c.target.path not in mpaths:
+                continue
+            n_run += 1
+            extra = []
+            for a in c.guards:
+                if a[0] == "variant":
+                    continue
+                if a[0] == "bool" and fld(a[1], m.f_trading) and a[2] is True:
+                    continue
+                if a[0] == "cmp" and a[1] in ("eq", "ne") and any(x[0] == "field" and x[2] == "status" for x in (a[2], a[3])):
+                    continue
+                extra.append(a)
+            ctx.check(not extra, "K4-run", "%s|%s" % (f.short(), c.name), c.loc(),
+                      "the %s-side matching loop is entered on every path with trading on (conditions: %s)" % (mpaths[c.target.path], c.gtext() or "none"),
+                      "the %s-side matching loop is skipped unless [%s]: an order that crosses can rest (or a market order go unmatched) without trading" % (
+                          mpaths[c.target.path], " && ".join(render_atom_safe(a) for a in extra)))
+    ctx.check(n_run >= 6, "K4-run", "census", "-", "%d matching call sites (limit, market, replacement x 2 sides)" % n_run)
+    c02.never_crossed(ctx, m, rule="K4-match-before-rest")
+
     # ---------------------------------------------------------------- K5 fill rule
     r5 = c03.fill_rules(ctx, m, census=False)
     if r5 is not None:
